@@ -39,7 +39,7 @@ def build_plan(spec, world):
     rng = random.Random(spec['seed'])
     fl = spec['flavour']
     n = spec['nthreads']
-    kinds = ['closure', 'loop', 'method', 'lambda', 'callee', 'wrapped']
+    kinds = ['closure', 'loop', 'method', 'lambda', 'callee', 'wrapped', 'listy', 'listy']
     shared = [world.new_group(rng.choice(kinds)) for _ in range(rng.choice([1, 2, 3]))]
     if rng.random() < 0.25:
         shared.append(world.new_group('broken'))
@@ -52,6 +52,11 @@ def build_plan(spec, world):
     for g in shared:
         g.load()
     opts = [W.BASE_OPT] + rng.sample(W.OPT_VARIANTS[1:], spec['nopts'] - 1)
+    if any(g.kind == 'listy' for g in shared):
+        # option sets that differ in exactly the optional passes these functions exercise
+        for o in ((True, True, True, ('LISTS',)), (True, True, True, ('ASSERT_STATEMENTS',))):
+            if o not in opts:
+                opts.append(o)
     if rng.random() < 0.6 and W.OPT_VARIANTS[2] not in opts:
         opts.append(W.OPT_VARIANTS[2])       # differs from the base only in user_requested (= what callees get)
     private = {}
@@ -93,7 +98,7 @@ def build_plan(spec, world):
                 gi = rng.randrange(len(shared)); g = shared[gi]
                 if g.kind == 'siblings':
                     gi = 0; g = shared[0]
-            nf = {'closure': 5, 'callee': 4, 'inplace': 2, 'wrapped': 3, 'loop': 4, 'directive': 2, 'directive_closure': 2, 'method': 3, 'lambda': 2,
+            nf = {'closure': 5, 'listy': 2, 'callee': 4, 'inplace': 2, 'wrapped': 3, 'loop': 4, 'directive': 2, 'directive_closure': 2, 'method': 3, 'lambda': 2,
                   'broken': 2}[g.kind]
             fi = rng.randrange(nf)
             opt = rng.choice(opts)
@@ -175,6 +180,101 @@ def run_history(spec):
         return package(spec, rec, verdicts, errors, time.time() - t00)
     finally:
         sys.setswitchinterval(old_sw)
+        tempfile.tempdir = old_tmp
+        shutil.rmtree(scratch, ignore_errors=True)
+
+
+def run_firstrace(spec):
+    """Stress of the FIRST request for a function: in every trial a brand-new function (new code object) is
+    requested by all threads at once (start barrier, switch interval 1e-6, no extra yields), so that the threads
+    race through the lock-free check and the acquisition of the lock.  transform_ast must still run once."""
+    t00 = time.time()
+    scratch = tempfile.mkdtemp(prefix='c10_')
+    old_sw = sys.getswitchinterval()
+    old_tmp = tempfile.tempdir
+    tempfile.tempdir = scratch
+    try:
+        world = W.World(spec['seed'], scratch)
+        rec = W.Recorder(spec['seed'], 0.0)
+        world.rec = rec
+        rng = random.Random(spec['seed'])
+        n, trials = spec['nthreads'], spec['trials']
+        verdicts, errors, cur = [], [], [None]
+        fuzz, codes = False, []
+        b1, b2 = threading.Barrier(n + 1, timeout=300), threading.Barrier(n + 1, timeout=300)
+
+        def worker(t):
+            try:
+                rec.register_thread(t)
+                for k in range(trials):
+                    b1.wait()
+                    where = {'thread': t, 'index': k, 'req_pos': len(rec.requests.get(t, []))}
+                    W.do_request(world, cur[0], W.BASE_OPT, 'to_graph', verdicts, where)
+                    b2.wait()
+            except BaseException:    # noqa
+                errors.append(traceback.format_exc())
+                b1.abort(); b2.abort()
+
+        # schedule fuzzing at LINE granularity: a possible thread switch (a short sleep) at every line of every method
+        # of the transpiler and cache classes (whatever methods they have), on top of the switch interval
+        from malt.pyct import transpiler as _tp, cache as _cm
+        mon = sys.monitoring
+        tool, codes, lrng = 4, [], threading.local()
+        for cls in (_tp.PyToPy, _cm._TransformedFnCache, _cm.CodeObjectCache):
+            for v in vars(cls).values():
+                c = getattr(v, '__code__', None)
+                if c is not None:
+                    codes.append(c)
+
+        def on_line(code, line):
+            r = getattr(lrng, 'r', None)
+            if r is None:
+                r = lrng.r = random.Random(spec['seed'] ^ threading.get_ident())
+            x = r.random()
+            if x < 0.25:
+                time.sleep(0 if x < 0.15 else 5e-5)
+        fuzz = False
+        try:
+            mon.use_tool_id(tool, 'c10-schedule-fuzz')
+            mon.register_callback(tool, mon.events.LINE, on_line)
+            for c in codes:
+                mon.set_local_events(tool, c, mon.events.LINE)
+            fuzz = True
+        except Exception:      # noqa  (tool id taken: run without line-level fuzzing)
+            pass
+        sys.setswitchinterval(spec['switch'])
+        with W.Installed(rec):
+            ths = [threading.Thread(target=worker, args=(t,), daemon=True) for t in range(n)]
+            for th in ths:
+                th.start()
+            try:
+                for k in range(trials):
+                    g = world.new_group('inplace', {'g': rng.randrange(1, 50), 'c': rng.randrange(2, 900), 'd': rng.randrange(1, 9)},
+                                        name='race%d' % k)
+                    g.load()
+                    cur[0] = g.fns[k % 2]
+                    W.reference(cur[0], W.BASE_OPT)       # made before the race, so the threads start together
+                    b1.wait()
+                    b2.wait()
+                    g.drop()
+            except threading.BrokenBarrierError:
+                if not errors:
+                    verdicts.append({'what': 'history did not terminate (a thread never arrived at the barrier)',
+                                     'thread': 0, 'index': -1, 'req_pos': -1})
+            for th in ths:
+                th.join(30)
+        sys.setswitchinterval(old_sw)
+        return package(spec, rec, verdicts, errors, time.time() - t00)
+    finally:
+        sys.setswitchinterval(old_sw)
+        try:
+            if fuzz:
+                for c in codes:
+                    sys.monitoring.set_local_events(4, c, 0)
+                sys.monitoring.register_callback(4, sys.monitoring.events.LINE, None)
+                sys.monitoring.free_tool_id(4)
+        except Exception:      # noqa
+            pass
         tempfile.tempdir = old_tmp
         shutil.rmtree(scratch, ignore_errors=True)
 
@@ -368,6 +468,16 @@ def run_witness(name):
                     order = ['converted_call@E', 'converted_call@D', 'converted_call@E', 'converted_call@U']
                 for j, rt in enumerate(order):
                     req(helper, uF, rt, j=2 * j); req(f, uF, rt, j=2 * j + 1)
+            elif name in ('features-base-first', 'features-lists-first'):
+                # option sets differing in one OPTIONAL pass, on functions containing what that pass rewrites
+                g = world.new_group('listy', {'g': 4, 'c': 2, 'd': 1})
+                build, pick = g.load()
+                oL, oA, oLA = (True, True, True, ('LISTS',)), (True, True, True, ('ASSERT_STATEMENTS',)), (True, True, True, ('EQUALITY_OPERATORS', 'LISTS'))
+                order = [W.BASE_OPT, oL, oA, oLA] if name == 'features-base-first' else [oL, W.BASE_OPT, oA, oLA]
+                j = 0
+                for o in order:
+                    for e in (build, pick):
+                        req(e, o, 'to_graph', j=j); req(e, o, 'actual', j=j + 1); j += 2
             elif name in ('wrapped-lib-first', 'wrapped-user-first'):
                 # one code object (functools.wraps wrapper): a sibling that is legitimately run as-is and a convertible one
                 g = world.new_group('wrapped', {'g': 4, 'c': 1, 'd': 2})
@@ -454,6 +564,7 @@ def run_witness(name):
 WITNESSES = {
     'sig-globals': CLS_SIG, 'sig-closure': CLS_SIG, 'sig-reverse': None,
     'equal-twice': CLS_EQ, 'equal-keyerror': CLS_EQ, 'equal-annotations': CLS_EQ,
+    'features-base-first': None, 'features-lists-first': None,
     'redefine-inplace-compile': None, 'redefine-inplace-reload': None, 'wrapped-lib-first': None, 'wrapped-user-first': None,
     'status-disabled-first': None, 'status-enabled-first': None, 'callee-raw-first': None, 'callee-plain-first': None,
     'siblings-diverge': None, 'ureq-callee-first': None, 'ureq-direct-first': None, 'ureq-call-then-graph': None, 'ureq-graph-then-call': None,
@@ -464,7 +575,8 @@ def _pool_run(spec):
     import logging
     logging.disable(logging.WARNING)        # malt's "could not transform ... will run it as-is" chatter
     try:
-        res = run_witness(spec['witness']) if 'witness' in spec else run_history(spec)
+        res = run_witness(spec['witness']) if 'witness' in spec else \
+            run_firstrace(spec) if spec.get('flavour') == 'firstrace' else run_history(spec)
         return json.loads(json.dumps(res, default=str))      # nothing from the pool's own modules crosses the pipe
     except BaseException:    # noqa
         return {'spec': spec, 'crash': traceback.format_exc()}
@@ -643,6 +755,10 @@ def check(run, only=None, repeat=1):
         nh = 90 if run.tier == "quick" else 500
         for i in range(nh):
             specs.append(make_spec(run.rng, run.tier, i))
+        for i in range(8 if run.tier == 'quick' else 40):
+            specs.append({'seed': run.rng.randrange(1 << 30), 'index': 'firstrace%d' % i, 'flavour': 'firstrace',
+                          'nthreads': run.rng.choice([2, 3, 4]), 'trials': 40, 'switch': 1e-6, 'yield_p': 0.0, 'nopts': 1,
+                          'per_thread': 40})
     else:
         for k in range(repeat):
             specs.append(dict(only, index='replay%d' % k))
@@ -657,7 +773,19 @@ def check(run, only=None, repeat=1):
 
     crashes = [r for r in results if 'crash' in r]
     if crashes:
-        raise common.InfraError('history worker crashed: ' + crashes[0]['crash'][-1500:])
+        # an exception that comes out of the implementation while a worker drives it is a broken obligation (the
+        # history is the replay), exactly as main.py treats it for the parent process; a harness-only crash is not
+        repo = os.path.realpath(common.REPO)
+        through_repo = [r for r in crashes if repo + os.sep in r['crash'] or (os.sep + 'malt' + os.sep) in r['crash']]
+        if not through_repo:
+            raise common.InfraError('history worker crashed: ' + crashes[0]['crash'][-1500:])
+        run.oblige('harness:every-history-completes-on-the-implementation', 'correspondence', False,
+                   '%d histories raised while the harness was driving the implementation; first: %s'
+                   % (len(through_repo), through_repo[0]['crash'][-700:]))
+        for r in through_repo[:3]:
+            run.fail('exception out of the implementation while driving a history: ' + r['crash'].strip().split('\n')[-1][:200],
+                     {'spec': r['spec'], 'traceback': r['crash'][-1200:]}, None)
+        results = [r for r in results if 'crash' not in r]
     herr = [r for r in results if r['errors']]
     if herr:
         raise common.InfraError('harness thread failed: ' + herr[0]['errors'][0][-1500:])
